@@ -5,7 +5,7 @@
    computes a canonical form: two groups that are equal up to sibling order sort to
    element-wise equal lists. *)
 From Coq Require Import List NArith Arith Bool Lia Permutation Sorted.
-From HV Require Import Base.Res Base.Str Gen.C09Fold Model.Defs Proofs.DefsProofs.
+From HV Require Import Base.Res Base.Str Gen.C09Fold Model.Defs Model.DefStore Proofs.DefsProofs.
 From HV Require Model.Dups Proofs.DupsProofs.
 Import ListNotations.
 
@@ -278,7 +278,7 @@ Qed.
    produces) *)
 Theorem defexpand_valid_iff D t g :
   wfl g = true ->
-  (defexpand_accepted true D t g = true <->
+  (defexpand_accepted current_fs D t g = true <->
    exists e ch, def_entry D t = Some e /\
                 get_definition e t (def_placeholder t) = Ok (Some ch) /\
                 lsim g ch).
